@@ -6,5 +6,5 @@ cd /verif
 ls seeded | grep -v _staging | while read id; do
   prop=$(echo $id | sed 's/-.*//')
   echo "$prop seeded/$id/patch.diff seeded/$id/demo.py $id"
-done | xargs -P $P -L 1 sh -c 'out=$(tools/seed_verify.sh $0 $1 $2 2>&1); if echo "$out" | grep -q "^VIOLATION property=$0"; then nfi=$(echo "$out" | grep -c no-failing-input-found); v=$(echo "$out" | grep -c "^VIOLATION"); if [ "$nfi" = "$v" ]; then echo "NFI-ONLY $3"; else echo "caught $3"; fi; else echo "MISSED $3: $(echo "$out" | tail -1 | cut -c1-120)"; fi' | tee /tmp/seed_recheck.log | grep -v "^caught"
+done | xargs -P $P -L 1 sh -c 'out=$(timeout 1200 tools/seed_verify.sh $0 $1 $2 2>&1); if echo "$out" | grep -q "^VIOLATION property=$0"; then nfi=$(echo "$out" | grep -c no-failing-input-found); v=$(echo "$out" | grep -c "^VIOLATION"); if [ "$nfi" = "$v" ]; then echo "NFI-ONLY $3"; else echo "caught $3"; fi; else echo "MISSED $3: $(echo "$out" | tail -1 | cut -c1-120)"; fi' | tee /tmp/seed_recheck.log | grep -v "^caught"
 echo "total: $(grep -c . /tmp/seed_recheck.log) caught: $(grep -c '^caught' /tmp/seed_recheck.log) nfi-only: $(grep -c '^NFI-ONLY' /tmp/seed_recheck.log) missed: $(grep -c '^MISSED' /tmp/seed_recheck.log)"
